@@ -1,5 +1,6 @@
 import Rs1090.Driver.CprCommon
 import Rs1090.Model.CprState
+import Rs1090.Spec.Cpr
 /-!
 Model driver for C06 (trajectory decoding).
 
@@ -86,9 +87,16 @@ def parseReports : List String → Option (List Report)
     let rs ← parseReports rest
     pure (r :: rs)
 
+/-- longitudes are printed modulo 360 in [-180, 180) with C04's seam rule (the harness does the same): the
+    property compares longitudes modulo 360; in f64 a globally decoded longitude can land one ulp below an
+    exact 180, and every later position decoded against that fix follows its turn -/
+def canonLon (x : Rat) : Rat :=
+  let y := Spec.Cpr.norm180 x
+  if y > 180 - 1/1000000000 then y - 360 else y
+
 def showItem : Option Pos → String
   | none => "-"
-  | some p => s!"{showRat p.lat},{showRat p.lon}"
+  | some p => s!"{showRat p.lat},{showRat (canonLon p.lon)}"
 
 def showOuts (outs : List (Option Pos)) : String :=
   "ok" ++ String.join (outs.map fun o => " " ++ showItem o)
